@@ -493,6 +493,12 @@ impl MasterSession {
             return Err(TaskError::RejectedByIin2(response.header.iin));
         }
 
+        // an outstation may request confirmation of any response, e.g. to report
+        // IIN1.0 after a broadcast that requires confirmation
+        if response.header.control.con {
+            self.confirm_solicited(io, destination, seq, writer).await?;
+        }
+
         Ok(Some(response))
     }
 
